@@ -253,6 +253,18 @@ func (w *Worktree) Checkout(opts *CheckoutOptions) error {
 		return err
 	}
 
+	// Reset validates the sparse directories only after HEAD has moved.
+	if len(opts.SparseCheckoutDirectories) > 0 {
+		t, err := w.r.getTreeFromCommitHash(c)
+		if err != nil {
+			return err
+		}
+
+		if !treeContainsDirs(t, opts.SparseCheckoutDirectories) {
+			return ErrSparseResetDirectoryNotFound
+		}
+	}
+
 	if opts.Create {
 		if err := w.createBranch(opts); err != nil {
 			return err
